@@ -21,7 +21,7 @@ func c01Case(r *mon.Run, ci corpusItem) {
 		r.Count("skip.generated program does not parse", 1)
 		return
 	}
-	b := a2j.Build(name, src, a2j.Roots(), ci.Seed, a2j.Knobs{})
+	b := a2j.Build(name, src, a2j.Roots(), ci.Seed, a2j.Knobs{Clones: ci.Seed&1 == 1})
 	if b.Skip != "" {
 		r.Count("skip."+b.Skip, 1)
 		return
@@ -57,7 +57,7 @@ func c01Case(r *mon.Run, ci corpusItem) {
 }
 
 func runC01(r *mon.Run) {
-	r.SetRule("every .go file of the corpora (quick: vendored corpus 589 files + /repo + seeded sample of 1,500 files of GOROOT/src + 400 generated programs; thorough: vendored + /repo + all of GOROOT/src + go1.26 src + module cache, two translator seeds, + 6,000 generated programs) is transcribed with the documented DSL element per construct (random choice among equivalent documented spellings), rendered, re-parsed and compared with the source AST. non-trivial = translated file with >=1 declaration; distinct by (file, translator seed). Skipped inputs are counted by reason under observed.skip.*")
+	r.SetRule("every .go file of the corpora (quick: vendored corpus 589 files + /repo + seeded sample of 1,500 files of GOROOT/src + 400 generated programs; thorough: vendored + /repo + all of GOROOT/src + go1.26 src + module cache, two translator seeds, + 6,000 generated programs) is transcribed with the documented DSL element per construct (random choice among equivalent documented spellings; for odd translator seeds one expression in ten is kept as a template whose Clone is used while a sibling Clone is extended afterwards), rendered, re-parsed and compared with the source AST. non-trivial = translated file with >=1 declaration; distinct by (file, translator seed). Skipped inputs are counted by reason under observed.skip.*")
 	r.Assume("inputs outside the translator's domain are skipped, never judged: unparsable files, dot imports, a path imported twice, unresolvable package names, import names C05 obliges jennifer to replace, imports never used through a selector")
 	r.Assume("normalisations are limited to what the statement exempts (comments, layout, redundant parentheses, empty statements removed by gofmt) and to Dict's documented reordering of keyed literals")
 	c01NegControls(r)
